@@ -1999,6 +1999,26 @@ class Engine(object):
         self.unsupported.append("line %d: %s" % (getattr(node, "lineno", 0), why))
 
     def exec_stmt(self, node, st):
+        probes = getattr(self, "probe_stmts", None)
+        if probes and id(node) in probes:
+            # expression probes: the (pure) sub-expression is evaluated first, in the state the statement starts in, and its
+            # value bound to the ghost name; then the statement runs as usual in each resulting state
+            pend = probes.pop(id(node))
+            try:
+                states = [st]
+                for pnode, gname in pend:
+                    nxt = []
+                    for s0 in states:
+                        for s1, v1 in self.eval(pnode, s0):
+                            s1.bind(gname, v1)
+                            nxt.append(s1)
+                    states = nxt
+                outs = []
+                for s1 in states:
+                    outs.extend(self.exec_stmt(node, s1))
+                return outs
+            finally:
+                probes[id(node)] = pend
         try:
             return self._exec_stmt(node, st)
         except Unsupported as ex:
@@ -2471,7 +2491,7 @@ class Engine(object):
                 bound.add(n.arg)
             elif isinstance(n, ast.ExceptHandler) and n.name:
                 bound.add(n.name)
-        ghosts = {"result", "done", "k", "v0", "True", "False", "None"} | set(SPEC_FUNCS) | set(contract.closure) | set(contract.bind) | set(getattr(contract, "ghost_params", ()))
+        ghosts = {"result", "done", "k", "v0", "True", "False", "None"} | set(SPEC_FUNCS) | set(contract.closure) | set(contract.bind) | set(getattr(contract, "ghost_params", ())) | set(getattr(contract, "probes", None) or {})
         is_block = getattr(contract, "block", None) is not None
         if is_block:
             ghosts |= set(contract.params)  # block contracts declare their state (incl. ghost variables) themselves
@@ -2557,9 +2577,10 @@ class Contract(object):
 
     def __init__(self, qual, params=None, requires=(), ensures=(), modifies=(), result="opaque", loops=None,
                  bind=None, closure=None, local_kinds=None, decorators=None, pure_results=None, trusted=None, src=None, deterministic=False, paths=None, block=None,
-                 block_exit=None, ghost_params=(), total=False):
+                 block_exit=None, ghost_params=(), total=False, probes=None):
         self.qual = qual
         self.ghost_params = tuple(ghost_params)  # specification-only variables (declared in `params`, bound fresh, not in the code)
+        self.probes = probes or {}  # block contracts: ghost name -> text prefix of a sub-expression whose value it names
         self.total = total  # total correctness: IndexError sites become obligations (explicit `raise` / assert paths are still only dropped)
         self.params = params or {}
         self.requires, self.ensures, self.modifies = list(requires), list(ensures), list(modifies)
@@ -2716,6 +2737,20 @@ def _engine_verify_block(self, contract):
                         raise OutOfSubset("block of %s uses %s other than as %s[%s] (line %d)" % (contract.qual, base_, base_, idx_, n.lineno))
                 if isinstance(n, ast.Name) and n.id == idx_ and isinstance(n.ctx, ast.Store):
                     raise OutOfSubset("block of %s re-binds the slot index %s (line %d)" % (contract.qual, idx_, n.lineno))
+    # expression probes: {ghost name: text the unparsed sub-expression starts with}; exactly one match each
+    self.probe_nodes = {}
+    self.probe_stmts = {}
+    for gname, text in (getattr(contract, "probes", None) or {}).items():
+        hits = [n for stmt_ in chosen for n in ast.walk(stmt_) if isinstance(n, ast.expr) and not isinstance(n, (ast.Slice, ast.Starred)) and ast.unparse(n).startswith(text)]
+        # keep the outermost match only (a match's own children that also match are dropped)
+        outer = [n for n in hits if not any(n is not m and any(c is n for c in ast.walk(m)) for m in hits)]
+        if len(outer) != 1:
+            raise OutOfSubset("probe %r of %s matches %d expressions in the block" % (gname, contract.qual, len(outer)))
+        self.probe_nodes[id(outer[0])] = gname
+        holder = next(stmt_ for stmt_ in chosen if any(c is outer[0] for c in ast.walk(stmt_)))
+        # the innermost simple statement that contains the probe
+        inner = [n for n in ast.walk(holder) if isinstance(n, ast.stmt) and not isinstance(n, (ast.If, ast.For, ast.While, ast.With, ast.Try, ast.FunctionDef)) and any(c is outer[0] for c in ast.walk(n))]
+        self.probe_stmts.setdefault(id(inner[-1] if inner else holder), []).append((outer[0], gname))
     # attachment: every variable the block READS from outside must be declared by the contract (a renamed local would
     # otherwise leave the declared one untouched and the claims about it trivially refutable)
     import builtins as _bi
